@@ -8,6 +8,7 @@ import (
 	"fmt"
 	"go/token"
 	"go/types"
+	"runtime/debug"
 	"slices"
 	"strings"
 
@@ -41,6 +42,15 @@ type frame struct {
 	panicking        bool
 	panic            any
 	phitemps         []value
+	cur              ssa.Instruction
+}
+
+// enginePanic wraps an unexpected Go panic inside the engine with the
+// interpreted location at which it happened.
+type enginePanic struct {
+	val   any
+	where string
+	stack string
 }
 
 func (fr *frame) get(key ssa.Value) value {
@@ -923,6 +933,9 @@ func (w *Worker) call(caller *frame, callpos token.Pos, fn value, args []value) 
 				case unsupportedErr:
 					w.depth = depth
 					result = poison{r.msg}
+				case enginePanic:
+					w.depth = depth
+					result = poison{fmt.Sprintf("engine error: %v at %s", r.val, r.where)}
 				default:
 					w.depth = depth
 					result = poison{fmt.Sprintf("engine error: %v", r)}
@@ -944,6 +957,21 @@ func (w *Worker) call(caller *frame, callpos token.Pos, fn value, args []value) 
 		unsupported("call of poison function value (%s) at %s", fn.why, w.posStr(callpos))
 	}
 	panic(fmt.Sprintf("cannot call %T", fn))
+}
+
+// targetStack renders the interpreted call stack (innermost first).
+func (w *Worker) targetStack() string {
+	var sb strings.Builder
+	n := 0
+	for fr := w.curFrame; fr != nil && n < 25; fr = fr.caller {
+		loc := ""
+		if fr.cur != nil {
+			loc = " @ " + w.posStr(fr.cur.Pos())
+		}
+		fmt.Fprintf(&sb, "\n          in %s%s", fr.fn, loc)
+		n++
+	}
+	return sb.String()
 }
 
 func fnKey(fn *ssa.Function) string {
@@ -984,7 +1012,19 @@ func (w *Worker) callSSA(caller *frame, callpos token.Pos, fn *ssa.Function, arg
 	if w.depth > 2000 {
 		panic(pathEnd{"call-depth-limit"})
 	}
-	defer func() { w.depth-- }()
+	prevFrame := w.curFrame
+	w.curFrame = fr
+	defer func() {
+		w.depth--
+		if r := recover(); r != nil {
+			if w.failStack == "" {
+				w.failStack = w.targetStack()
+			}
+			w.curFrame = prevFrame
+			panic(r)
+		}
+		w.curFrame = prevFrame
+	}()
 	if w.eng.trackFuncs {
 		w.funcsSeen[fn]++
 	}
@@ -1018,7 +1058,15 @@ func (w *Worker) runFrame(fr *frame) {
 		r := recover()
 		tp, ok := r.(targetPanic)
 		if !ok {
-			panic(r) // engine-level abort: propagate untouched
+			switch r.(type) {
+			case unsupportedErr, pathEnd, enginePanic:
+				panic(r) // engine-level abort: propagate untouched
+			}
+			where := fr.fn.String()
+			if fr.cur != nil {
+				where = fr.where(fr.cur)
+			}
+			panic(enginePanic{val: r, where: where, stack: string(debug.Stack())})
 		}
 		if tp.where == "" {
 			tp.where = fr.fn.String()
@@ -1038,6 +1086,7 @@ func (w *Worker) runFrame(fr *frame) {
 	for {
 		nonPhis := w.executePhis(fr)
 		for _, instr := range nonPhis {
+			fr.cur = instr
 			if w.visitInstr(fr, instr) == kReturn {
 				return
 			}
